@@ -2,7 +2,11 @@
 
 package jbig2
 
-import "seehuhn.de/go/membudget"
+import (
+	"errors"
+
+	"seehuhn.de/go/membudget"
+)
 
 // VerifPoolTrace runs the real bitmapPool accounting on a sequence of
 // operations (n > 0: charge n bytes, n < 0: release -n bytes) against a
@@ -42,3 +46,38 @@ func VerifPoolTrace(limit int64, ops []int) (live, peak int, taken int64, done i
 // VerifWorkLimit is workLimit: the pixel-decode work allowed for an input of
 // rawLen bytes (verification property C08).
 func VerifWorkLimit(rawLen int64) int64 { return workLimit(rawLen) }
+
+// VerifHuffCode returns the code with which the standard Huffman table Bn
+// (n = 1..15) of the real decoder writes the value v (oob: the out-of-band
+// code), as a string of '0' and '1' (verification property C08: structurally
+// valid hostile dictionaries are built by the harness from these codes).
+func VerifHuffCode(n int, v int64, oob bool) (string, error) {
+	tables := []*huffTable{nil, huffTableB1, huffTableB2, huffTableB3, huffTableB4, huffTableB5,
+		huffTableB6, huffTableB7, huffTableB8, huffTableB9, huffTableB10, huffTableB11,
+		huffTableB12, huffTableB13, huffTableB14, huffTableB15}
+	if n < 1 || n >= len(tables) {
+		return "", errors.New("no such table")
+	}
+	w := newBitWriter()
+	var err error
+	if oob {
+		err = tables[n].encodeOOB(w)
+	} else {
+		err = tables[n].encode(w, v)
+	}
+	if err != nil {
+		return "", err
+	}
+	nbits := 8 * len(w.buf)
+	if w.bitPos != 0 {
+		nbits = 8*(len(w.buf)-1) + w.bitPos
+	}
+	s := make([]byte, nbits)
+	for i := range s {
+		s[i] = '0' + (w.buf[i/8]>>(7-i%8))&1
+	}
+	return string(s), nil
+}
+
+// VerifSymCodeLen is symCodeLen: the number of bits of a symbol ID.
+func VerifSymCodeLen(n int) int { return symCodeLen(n) }
